@@ -151,14 +151,14 @@ def run (items : List Sexp) : Option String := do
   let pay := Payload.ofList (rows.toList.map (·.1))
   let sp := spec pay dom a ops
   let out := fun q => tokens (model q pay dom a ops) sp
-  let trig := (if trigAbandoned ops then ["F-C03-4"] else []) ++ (if trigOverlap ops then ["F-C03-5"] else [])
-    ++ (if trigStaleGrow ops then ["F-C03-6"] else [])
+  -- F-C03-4 (abandoned evaluation leaves selector state) and F-C03-6 (stale evaluation parent in the surgery) are
+  -- repaired in /repo (f749997, 97ba516): `model=` is `HQuirks.repaired`, only F-C03-5 keeps a trigger
+  let trig := (if trigOverlap ops then ["F-C03-5"] else [])
   if !crossOk pay dom a then pure "model=internal:evalG-vs-evalK\tspec=-\ttrig="
   else pure ("\t".intercalate
-    [ "model=" ++ out HQuirks.today,
-      "model_fixed=" ++ out HQuirks.repaired,
-      "model_fixed_reset=" ++ out { HQuirks.today with staleSelectorState := false },
-      "model_fixed_surgery=" ++ out { HQuirks.today with staleEvalParent := false },
+    [ "model=" ++ out HQuirks.repaired,
+      "model_asfound=" ++ out HQuirks.today,
+      "model_ideal=" ++ out HQuirks.ideal,
       "spec=" ++ tokens sp sp,
       "trig=" ++ ",".intercalate trig ])
 end Rh
@@ -168,7 +168,7 @@ then `q1` is evaluated. One attribute node with two parents is outside the tree-
 prediction is made (`*`); the specification is `q1`'s isolated result over `f = T, F, F`. -/
 def run (s : Sexp) : String :=
   match s with
-  | .list [.atom "sharedsub"] => "model=*\tspec=[(o0)]\ttrig=F-C03-3"
+  | .list [.atom "sharedsub"] => "model=[(o0)]\tspec=[(o0)]\ttrig="
   -- `(rulereeval)`: a rule query (base rule + one alternative) evaluated twice; since fix 10ab5ee every
   -- evaluation resets the selectors' `concluded_before` sets first, so the second evaluation yields what the first
   -- one yields (F-C03-2, fixed; kept as a corpus case)
